@@ -120,10 +120,97 @@ def _(A, R):
                                                     _iter(A.codebase.t))))]
 
 
-UNITS = ["codebasin.finder:ParserState.get_setmap"]
+# ================================================================ FileTree.insert: one level of the path walk
+# The body of `for path in list(reversed(filepath.parents)) + [filepath]` as a unit: what one level does to the node
+# it stands on (the directory above `path`) and which node the walk moves to.  Summing over the levels gives the tree
+# figures of the property ("every directory's figures are the sums over the files listed beneath it"; a symbolic link
+# adds nothing to any directory).  The composition over the levels is the bounded part (native TreeReport).
+FTNODE = Atom("FileTreeNode")
+FT_PARENT = ObjSpec("Node", {"setmap": CellOf(DefaultMapOf(PSet, INT, VInt(z3.IntVal(0)))),
+                             "children": CellOf(MapOf(PATH, FTNODE))})
+
+
+def _new_ftnode(ex, st, pos, kw, node):
+    n = FTNODE.fresh(ex.ctx, "new_node")
+    st.ghost["created"] = (n, [ops.deref(st, a) if not isinstance(a, VNone) else a for a in pos], dict(kw))
+    return [(st, n)]
+
+
+ft = contract("codebasin.report:FileTree.insert@loop0", props=["C06", "C15"])
+ft.param("path", PATH).param("rootpath", PATH).param("filepath", PATH).param("setmap", SETMAP).param("parent", FT_PARENT)
+ft.modifies = ["parent", "parent.setmap", "parent.children"]
+ft.opaque = {"class:FileTree.Node": _new_ftnode, "class:Node": _new_ftnode}
+ft.setup = lambda ctx, st: F.install_axioms()
+
+
+@ft.ensures
+def _(A, R):
+    S = z3.Const("ft!S", PSet.sort())
+    skip = z3.Or(A.path.t == A.rootpath.t, z3.Not(F.below(A.path.t, A.rootpath.t)))
+    pobj = A.raw("parent")                      # the node the level stands on (the local `parent` moves on)
+
+    def now(field):
+        return R.st.heap[R.st.heap[pobj.oid].fields[field].oid].val
+    old_sm, new_sm = A.parent.setmap, now("setmap")
+    old_ch, new_ch = A.parent.children, now("children")
+    moved = R.new.raw("parent")
+    moved = None if (isinstance(moved, VObj) and moved.oid == pobj.oid) else ops.deref(R.st, moved)
+    link = F.is_symlink(A.filepath.t)
+    add = z3.If(z3.And(z3.Not(link), A.setmap.dom[S]), A.setmap.valarr[S], 0)
+    val = lambda m, k: z3.If(m.dom[k], m.valarr[k], 0)      # noqa: E731  (defaultdict(int): a missing key reads as 0)
+    name = F.basename(A.path.t)
+    newp = moved
+    created = R.st.ghost.get("created")
+    out = [
+        ("levels at or above the root are skipped without any effect",
+         z3.Implies(skip, z3.And(z3.ForAll([S], val(new_sm, S) == val(old_sm, S)), new_ch.dom == old_ch.dom, new_ch.valarr == old_ch.valarr,
+                                 z3.BoolVal(newp is None)))),
+        ("the node above this level receives the file's lines, set by set - unless the FILE is a symbolic link (then nothing is added)",
+         z3.Implies(z3.Not(skip), z3.ForAll([S], val(new_sm, S) == val(old_sm, S) + add))),
+    ]
+    if newp is None:
+        out.append(("the walk moves down one level", skip))
+        return out
+    if created is None:
+        out += [("an existing child of that name is reused, nothing is attached",
+                 z3.Implies(z3.Not(skip), z3.And(old_ch.dom[name], newp.t == old_ch.valarr[name], new_ch.dom == old_ch.dom,
+                                                 new_ch.valarr == old_ch.valarr)))]
+    else:
+        n, pos, kw = created
+        is_dir = F.is_dir(A.path.t)
+        with_map = len(pos) == 2 and isinstance(pos[1], VMap)
+        out += [("a new node is attached under the level's name only when no child has that name, and the walk moves to it",
+                 z3.Implies(z3.Not(skip), z3.And(z3.Not(old_ch.dom[name]), newp.t == n.t,
+                                                 new_ch.dom == z3.Store(old_ch.dom, name, True), new_ch.valarr == z3.Store(old_ch.valarr, name, n.t)))),
+                ("the new node is made for this level's path", z3.BoolVal(len(pos) >= 1) if not pos else pos[0].t == A.path.t),
+                ("a file node carries the file's own figures, a directory node starts empty",
+                 z3.Implies(z3.Not(skip), z3.Not(is_dir) if with_map else is_dir)),
+                ]
+        if with_map:
+            out.append(("the figures handed to a file node are the file's", z3.And(pos[1].dom == A.setmap.dom, pos[1].valarr == A.setmap.valarr)))
+    return out
+
+
+def _ft_inv(L):
+    S = z3.Const("fti!S", PSet.sort())
+    val = lambda m, k: z3.If(m.dom[k], m.valarr[k], 0)      # noqa: E731
+    e = L.entry
+    return [("parent.setmap == entry + the sets seen so far",
+             z3.ForAll([S], val(L.parent.setmap, S) == val(e.parent.setmap, S)
+                       + z3.If(L.seen.t[S], L.args.setmap.valarr[S], 0))),
+            ("children untouched", z3.And(L.parent.children.dom == e.parent.children.dom, L.parent.children.valarr == e.parent.children.valarr))]
+
+
+ft.loop(1, LoopSpec(_ft_inv))
+
+UNITS = ["codebasin.finder:ParserState.get_setmap", "codebasin.report:FileTree.insert@loop0"]
 ASSUMPTIONS = [
     "A4 static file system; code base enumeration is an arbitrary duplicate-free enumeration of a finite set of paths",
     "tree.walk() is a pure function of the tree (list of nodes); a node's num_lines does not change while counting",
 ]
-NOT_COVERED = ["rendered text of the reports (tabulate, f-strings, JSON)"]
-EXPLANATION = "get_setmap is proved to compute, per platform set, the sum over canonical files of the lines of code nodes attributed to exactly that set."
+NOT_COVERED = ["rendered text of the reports (tabulate, f-strings, JSON)",
+               "FileTree.insert: the composition of its levels over a whole path and over all files (tree sums == summary) is bounded (native TreeReport); "
+               "one level is proved"]
+EXPLANATION = ("get_setmap is proved to compute, per platform set, the sum over canonical files of the lines of code nodes attributed to exactly "
+               "that set; one level of FileTree.insert is proved to add the file's figures to the directory above it (nothing for a symbolic "
+               "link), to reuse or create exactly one child, and to move on to it.")
